@@ -36,7 +36,8 @@ RULE = ("an observation sequence of 1-40 update(value,total) calls x a "
         "combine grids use parameter names whose text order differs from their "
         "numeric order. "
         "Combine is driven with all four result types and with grids around zero; the accumulate flag reaches Result as bool / numpy bool / 0-1. "
-        "A fifth of the chunk sets, 30 % of the combined sets and 40 % of the intermediate unions go through dict / JSON before they are merged. ")
+        "A fifth of the chunk sets, 30 % of the combined sets and 40 % of the intermediate unions go through dict / JSON before they are merged. "
+        "Generator array-sum: sum results of integer vectors reported from one refilled buffer. ")
 ASSUMPTIONS = ["chunks are non-empty (a MISC result merged with a never-updated "
                "operand is outside 'the last observation wins')",
                "statistics are read through the public to_dict()/getters"]
@@ -601,6 +602,61 @@ def case_combine(ctx, rng, idx):
     ctx.sample("combine", tag)
 
 
+def case_array_sum(ctx, rng, idx):
+    """Sum results whose observations are small integer vectors (per-subcarrier
+    error counts and the like), reported by the caller from ONE buffer that is
+    refilled for every observation."""
+    n = int(rng.integers(1, 30))
+    k = int(rng.integers(1, min(n, 6) + 1))
+    width = int(rng.integers(1, 6))
+    obs = rng.integers(0, 50, size=(n, width))
+    acc = bool(idx % 2)
+    tag = {"type": "SUM", "observations": "int vectors of length %d" % width, "n": n,
+           "chunks": k, "accumulate": acc, "obs_head": obs[:3].tolist()}
+
+    def run(rows):
+        r = Result("r", Result.SUMTYPE, accumulate_values=acc)
+        buf = np.zeros(width, dtype=obs.dtype)
+        for row in rows:
+            buf[:] = row                 # the caller's buffer, refilled each time
+            r.update(buf)
+        return r
+    okc, ref = ctx.call("grouping-independent", run, obs, cls="array-sum:raised", detail=tag)
+    if not okc:
+        return
+    total = obs.sum(axis=0)
+    ctx.ev("grouping-independent", np.array_equal(np.asarray(ref.get_result()), total) and
+           ref.num_updates == n, cls="array-sum:single-accumulation",
+           detail=lambda: {**tag, "got": np.asarray(ref.get_result()), "want": total})
+    bounds = partition(rng, n, k)
+    okc, parts = ctx.call("grouping-independent",
+                          lambda: [run(obs[bounds[i]:bounds[i + 1]]) for i in range(k)],
+                          cls="array-sum:raised", detail=tag)
+    if not okc:
+        return
+    snaps = [np.array(p.get_result(), copy=True) if p.num_updates else None for p in parts]
+    merged = parts[0]
+    try:
+        for p in parts[1:]:
+            merged.merge(p)
+    except Exception as e:          # noqa: BLE001
+        ctx.ev("grouping-independent", False, cls="array-sum:merge-raised:" + type(e).__name__,
+               detail={**tag, "exc": repr(e)})
+        return
+    ctx.ev("grouping-independent", np.array_equal(np.asarray(merged.get_result()), total) and
+           merged.num_updates == n, cls="array-sum:merged",
+           detail=lambda: {**tag, "bounds": bounds, "got": np.asarray(merged.get_result()),
+                           "want": total})
+    for p, s0 in list(zip(parts, snaps))[1:]:
+        if s0 is not None:
+            ctx.ev("operand-not-mutated", np.array_equal(np.asarray(p.get_result()), s0),
+                   cls="array-sum:merged-in-operand", detail=tag)
+    # (the optional history list keeps the observation OBJECTS it was given, i.e.
+    #  the caller's refilled buffer; C06 speaks of value, total, counts, mean and
+    #  variance, so the history of array observations is not judged here)
+    ctx.sig("array-sum", width, k, acc)
+
+
 def classify(w):
     return None
 
@@ -610,6 +666,7 @@ GENS = {
     "set": Gen(case_set, 3000, 700000),
     "multi": Gen(case_multi, 1500, 400000),
     "combine": Gen(case_combine, 1200, 300000),
+    "array-sum": Gen(case_array_sum, 400, 100000),
 }
 MIN_EVALS = {"grouping-independent": 4000, "operand-not-mutated": 8000,
              "set-grouping-independent": 1500, "combine-per-combination": 1500,
